@@ -140,6 +140,15 @@ fn op_list(thorough: bool) -> Vec<SendOp> {
         let rp = ExternalReference::new(Atom::new("p@h"), 2, vec![5, 6]);
         for r in [&rl, &rp, &rl] { ops.push(SendOp::Monitor { from: pid_plain(4), to: plain.clone(), r: r.clone() }); }
     }
+    // senders whose numbers need the wide pid format (id >= 2^15, serial >= 2^13) and a creation beyond two bits
+    {
+        let wide = ExternalPid::new(Atom::new("me@127.0.0.1"), 40_000, 9_000, 0x0102_0304);
+        ops.push(SendOp::Link { from: wide.clone(), to: pid_remote(1) });
+        ops.push(SendOp::RegSend { from: wide.clone(), name: "rex".into(), msg: OwnedTerm::atom("from_a_wide_pid") });
+        ops.push(SendOp::Monitor { from: wide.clone(), to: pid_remote(1), r: r3.clone() });
+        ops.push(SendOp::Unlink { from: wide.clone(), to: pid_remote(1), id: 7 });
+        ops.push(SendOp::Demonitor { from: wide, to: pid_remote(1), r: r3.clone() });
+    }
     for to in &tos {
         ops.push(SendOp::Link { from: pid_plain(3), to: to.clone() });
         for id in [0u64, 1, (1 << 31) - 1, 1 << 31, (1u64 << 63) - 1, 1u64 << 63, u64::MAX] { ops.push(SendOp::Unlink { from: pid_plain(3), to: to.clone(), id }); }
@@ -190,11 +199,23 @@ fn same_msg(a: &DistMsg, b: &DistMsg) -> bool {
 fn inputs_exec(dist_hdr: bool, thorough: bool, ctx: &WorkerCtx) -> ExecResult { inputs_exec2((dist_hdr, dist_hdr), thorough, ctx) }
 
 /// `who` = (this side asks for distribution headers, the peer offers them): headers are in force only when both do.
+thread_local! { static PEER_MASK: std::cell::Cell<u64> = const { std::cell::Cell::new(u64::MAX) }; }
+
+/// As `inputs_exec2((false, false))` against a peer that offers neither V4_NC (wide pid numbers) nor BIG_CREATION: what this
+/// side puts into its frames is still what the operations were given.
+fn inputs_exec_narrow_peer(ctx: &WorkerCtx) -> ExecResult {
+    PEER_MASK.with(|c| c.set(!((1u64 << 34) | 0x40000)));
+    let r = inputs_exec2((false, false), false, ctx);
+    PEER_MASK.with(|c| c.set(u64::MAX));
+    r
+}
+
 fn inputs_exec2(who: (bool, bool), thorough: bool, ctx: &WorkerCtx) -> ExecResult {
     let dist_hdr = who.0 && who.1;
+    let peer_mask = PEER_MASK.with(|c| c.get());
     run_rt(async move {
         let mut res = ExecResult::default();
-        let mut cw = match conn_world(ctx, flags_default() | if who.0 { DIST_HDR } else { 0 }, flags_default() | if who.1 { DIST_HDR } else { 0 }).await {
+        let mut cw = match conn_world(ctx, flags_default() | if who.0 { DIST_HDR } else { 0 }, (flags_default() | if who.1 { DIST_HDR } else { 0 }) & peer_mask).await {
             Ok(x) => x,
             Err(e) => { res.violations.push(("could not establish the connection under a conforming peer".into(), json!({"error": e}))); return res; }
         };
@@ -735,6 +756,8 @@ pub fn run(rep: &Report) -> Value {
     let thorough = rep.thorough();
     let modes = [false, true];
     let st_inputs: Stats = for_all(rep, "operations x arguments x framing mode", &modes, |m, ctx| inputs_exec(*m, thorough, ctx));
+    let one = [0usize];
+    let st_np: Stats = for_all(rep, "operations x arguments towards a peer without V4_NC and BIG_CREATION", &one, |_, ctx| inputs_exec_narrow_peer(ctx));
     let cas = [(1usize, false), (64, false), (512, false), (2048, false), (512, true), (2048, true)];
     let st_cas: Stats = for_all(rep, "close or drop right after a send returned", &cas, |c, ctx| close_after_send_exec(c, ctx));
     let mixed = [(false, true), (true, false)];
@@ -758,7 +781,7 @@ pub fn run(rep: &Report) -> Value {
         let st = explore(rep, &name, b, std::time::Duration::from_secs(if thorough { 600 } else { 30 }), |ch, ctx| concurrent(ch, ctx, t, p, burst));
         conc.push((name, st));
     }
-    let states = st_cas.executions + st_mixed.executions + st_stallc.executions + st_inputs.executions + st_unc.executions + st_re.executions + st_stall.executions + st_hb.executions + st_rep.executions + conc.iter().map(|c| c.1.executions).sum::<u64>();
+    let states = st_np.executions + st_cas.executions + st_mixed.executions + st_stallc.executions + st_inputs.executions + st_unc.executions + st_re.executions + st_stall.executions + st_hb.executions + st_rep.executions + conc.iter().map(|c| c.1.executions).sum::<u64>();
     let transitions = st_inputs.transitions + st_unc.transitions + st_re.transitions + conc.iter().map(|c| c.1.transitions).sum::<u64>();
     let mut samples = vec![json!({"operation": op_list(false)[3].short()}), json!({"operation": op_list(false)[op_list(false).len() - 5].short()})];
     for c in &conc { samples.extend(c.1.samples.iter().take(1).cloned()); }
